@@ -36,12 +36,14 @@ pub fn frames_of(names: &[String], err_at: Option<(usize, u8)>) -> Vec<Vec<u8>> 
         .collect()
 }
 
-pub fn run_case(names: &[String], chunks: &[usize], err_at: Option<(usize, u8)>) -> Vec<String> {
+/// `extra`: the last `extra` frames are not owed to the chain (the peer answered a oneway call, or the reply of a later
+/// exchange arrived early): they sit in the buffer behind the chain's replies when the stream ends
+pub fn run_case(names: &[String], chunks: &[usize], err_at: Option<(usize, u8)>, extra: usize) -> Vec<String> {
     let net = new_net(vec![]);
     let mut conn = Connection::new(SSocket(net.clone()));
     let frames: Vec<Vec<u8>> = frames_of(names, err_at);
     let mut chain = conn.chain_call::<M1, P2<'_>, E2<'_>>(&Call::new(M1::B)).unwrap();
-    for _ in 1..names.len() {
+    for _ in 1..names.len() - extra {
         chain = chain.append(&Call::new(M1::B)).unwrap();
     }
     let stream = block_on(chain.send()).unwrap();
@@ -133,6 +135,9 @@ pub fn main(o: &Opts) {
         // (an error frame is longer than a reply: where it would push a small batch over the first growth
         // step, the case goes without it)
         let err_at = if !big && frames_of(&names, err_at).iter().map(|f| f.len() + 1).sum::<usize>() > 256 { None } else { err_at };
+        // every fifth case (without an error frame): the last one or two frames are not owed to the chain; they arrive with
+        // the chain's last replies and stay in the buffer when the stream ends, while the items are still held
+        let extra = if case % 5 == 2 && err_at.is_none() && k >= 3 { if k >= 4 && rng.chance(1, 2) { 2 } else { 1 } } else { 0 };
         let frames = frames_of(&names, err_at);
         let wire: Vec<u8> = frames.iter().flat_map(|f| f.iter().copied().chain(std::iter::once(0))).collect();
         let mut chunks: Vec<usize> = vec![];
@@ -182,15 +187,16 @@ pub fn main(o: &Opts) {
             }
         }
         em.case(|| {
-            let obs = run_case(&names, &chunks, err_at);
+            let obs = run_case(&names, &chunks, err_at, extra);
             let fs: Vec<String> = frames.iter().map(|f| enc_bytes(f)).collect();
             vec![format!(
-                "alias F {} G {} C {} O {} X {} => {}",
+                "alias F {} G {} C {} O {} X {}{} => {}",
                 fs.join(" "),
                 if aligned { groups.iter().map(|g| g.to_string()).collect::<Vec<_>>().join(" ") } else { "-".into() },
                 chunks.iter().map(|g| g.to_string()).collect::<Vec<_>>().join(" "),
                 PRE.len(),
                 err_at.map(|(i, _)| i.to_string()).unwrap_or_else(|| "-".into()),
+                if extra > 0 { format!(" E {extra}") } else { String::new() },
                 obs.join(" ")
             )]
         });
